@@ -56,6 +56,8 @@ TEMPLATES = [
     ("table->rename-operand", "insert into {w} select x from src; alter table {r} rename to fin2", "rename"),
     ("derived-alias->qualifier", "insert into fin select {r}.x from (select x from src) {w}", "qualifier"),
     ("target->self-read", "insert into {w} select x from {r}", "selfloop"),
+    # session knowledge is keyed by the table: two spellings are two tables iff their normalisations differ (provider in use)
+    ("created-table->star-read", "create table {w} as select x as col_w from src; create table {r} as select x as col_r from src; insert into fin select * from {w}", "session"),
 ]
 
 
@@ -82,6 +84,10 @@ def judge(kind, w, r, o):
         return src == ["<default>.src"], None
     if kind == "rename":
         return tgt == ["<default>.fin2"], None
+    if kind == "session":
+        cols = {t.rsplit(".", 1)[1] for s_, t in pairs if t.startswith("<default>.fin.")}
+        # same entity: the second CREATE redefines it (anything goes); different entities: * expands to col_w only
+        return (cols != {"col_w"}), None
     if kind == "selfloop":
         return src == tgt and len(src) == 1, (src + tgt)[0] == f"<default>.{nw}" if False else None
     raise AssertionError(kind)
@@ -107,7 +113,12 @@ def printed_ok(pos, w, o):
 def _eval(task):
     dialect, pos, tpl, kind, w, r = task
     sql = tpl.format(w=w, r=r)
-    o = observe.observe(sql, dialect, level="columns")
+    prov = None
+    if kind == "session":
+        from sqllineage.core.metadata.dummy import DummyMetaDataProvider
+
+        prov = DummyMetaDataProvider({"main.unrelated": ["id"]})
+    o = observe.observe(sql, dialect, provider=prov, level="columns")
     if "exception" in o:
         if o["exception"] == "InvalidSyntaxException" and not observe.sqlfluff_accepts(sql.split(";")[0], dialect):
             return {"skip": True}
@@ -115,6 +126,8 @@ def _eval(task):
     same = N(w) == N(r)
     chained, _ = judge(kind, w, r, o)
     bad = []
+    if kind == "session" and same:
+        chained = same  # re-definition of one table: not constrained here
     if chained != same:
         bad.append("treated-as-same-entity-but-spellings-differ" if chained else "same-spelling-class-not-recognised")
     if not printed_ok(pos, w, o):
